@@ -37,6 +37,10 @@ pub struct Case {
     /// false: the encoder's output does not end in a line break (the statement speaks of whole records, not of lines)
     #[serde(default = "yes")]
     pub terminated: bool,
+    /// a second append-mode appender on the same path (old and new configuration during a reload, two
+    /// appenders sharing a file): the single-threaded appends alternate between the two
+    #[serde(default)]
+    pub twin: bool,
 }
 
 fn yes() -> bool {
@@ -68,8 +72,9 @@ pub fn strategy() -> impl Strategy<Value = Case> {
         prop::option::weighted(0.5, phase),
         prop::collection::vec(len_strategy(), 0..=3),
         prop::bool::weighted(0.7),
+        prop::bool::weighted(0.25),
     )
-        .prop_map(|(pre_kind, pre_len, append_mode, chunks, singles, phase, singles_after, terminated)| Case { pre_kind, pre_len, append_mode, chunks, singles, phase, singles_after, terminated })
+        .prop_map(|(pre_kind, pre_len, append_mode, chunks, singles, phase, singles_after, terminated, twin)| Case { pre_kind, pre_len, append_mode, chunks, singles, phase, singles_after, terminated, twin: twin && append_mode })
 }
 
 /// Multi-chunk encoder which can park *inside* the appender's critical section.
@@ -158,10 +163,17 @@ fn check_in(dir: &Path, case: &Case, obs: &mut Obs) -> CaseResult {
     let rec_text = move |tid: u16, seq: u32, len: usize| if terminated { record_text(tid, seq, len) } else { record_text_unterminated(tid, seq, len) };
     let mut seq = 0u32;
     let mut big = false;
+    // the twin opens the same path in append mode as well (after the first appender, like a reloaded configuration)
+    let twin_app = if case.twin {
+        Some(FileAppender::builder().append(true).encoder(make_encoder(&case.chunks.as_ref().map(|c| c.clone()))).build(&path).map_err(|e| Failure { sig: "C04:build".into(), msg: e.to_string() })?)
+    } else {
+        None
+    };
     let single = |len: usize, seq: &mut u32, expected: &mut Vec<u8>, obs: &mut Obs| -> CaseResult {
         let text = rec_text(0, *seq, len);
         *seq += 1;
-        match catch(|| append_msg(&app, &text)) {
+        let through_twin = twin_app.is_some() && *seq % 2 == 0;
+        match catch(|| if through_twin { append_msg(twin_app.as_ref().unwrap(), &text) } else { append_msg(&app, &text) }) {
             Err(p) => return fail("C04:panic", format!("append panicked: {}", p)),
             Ok(Err(e)) => return fail("C04:append-error", format!("append returned an error: {}", e)),
             Ok(Ok(())) => {}
@@ -305,6 +317,7 @@ fn check_in(dir: &Path, case: &Case, obs: &mut Obs) -> CaseResult {
     obs.class_if(!pre.is_empty() && !case.append_mode, "pre-existing-truncated");
     obs.class_if(case.chunks.is_some(), "multi-chunk-encoder");
     obs.class_if(!case.terminated, "records-without-trailing-newline");
+    obs.class_if(case.twin, "two-append-mode-appenders-on-one-path");
     Ok(())
 }
 
